@@ -226,9 +226,12 @@ def parse_casstype_args(typestring):
             else:
                 names.append(None)
 
-            try:
+            # a bare integer is only meaningful as the dimension of a vector; anywhere
+            # else (e.g. the keyspace and hex-encoded names of a UserType) digits are a name
+            outer = args[-2][0][-1] if len(args) > 1 and args[-2][0] else None
+            if tok.isdigit() and isinstance(outer, type) and issubclass(outer, VectorType):
                 ctype = int(tok)
-            except ValueError:
+            else:
                 ctype = lookup_casstype_simple(tok)
             types.append(ctype)
 
